@@ -20,6 +20,7 @@ type vctx struct {
 	parent   *vctx
 	deadline time.Time
 	hasDl    bool
+	cause    error
 }
 
 func (c *vctx) Done() <-chan struct{} { return c.done }
@@ -93,6 +94,78 @@ func WithTimeout(parent context.Context, d time.Duration) (context.Context, cont
 		return context.WithTimeout(parent, d)
 	}
 	return WithDeadline(parent, Now().Add(d))
+}
+
+// WithCancelCause replaces context.WithCancelCause.
+func WithCancelCause(parent context.Context) (context.Context, context.CancelCauseFunc) {
+	if !live() {
+		return context.WithCancelCause(parent)
+	}
+	c := newCtx(parent)
+	return c, func(cause error) {
+		if c.err == nil && cause != nil {
+			c.cause = cause
+		}
+		c.cancel(context.Canceled)
+	}
+}
+
+// Cause replaces context.Cause.
+func Cause(ctx context.Context) error {
+	if c, ok := ctx.Value(ctxKey{}).(*vctx); ok {
+		for x := c; x != nil; x = x.parent {
+			if x.cause != nil {
+				return x.cause
+			}
+		}
+		return c.err
+	}
+	return context.Cause(ctx)
+}
+
+// withoutCancel hides the cancellable ancestors of a context.
+type withoutCancel struct{ context.Context }
+
+func (withoutCancel) Done() <-chan struct{}       { return nil }
+func (withoutCancel) Err() error                  { return nil }
+func (withoutCancel) Deadline() (time.Time, bool) { return time.Time{}, false }
+func (w withoutCancel) Value(key any) any {
+	if _, ok := key.(ctxKey); ok {
+		return nil
+	}
+	return w.Context.Value(key)
+}
+
+// WithoutCancel replaces context.WithoutCancel.
+func WithoutCancel(parent context.Context) context.Context {
+	if !live() {
+		return context.WithoutCancel(parent)
+	}
+	return withoutCancel{parent}
+}
+
+// ContextAfterFunc replaces context.AfterFunc: f runs in its own goroutine once ctx is done.
+func ContextAfterFunc(ctx context.Context, f func()) (stop func() bool) {
+	if !live() {
+		return context.AfterFunc(ctx, f)
+	}
+	stopped := make(chan struct{})
+	var once Once
+	fired := false
+	Go(func() {
+		switch c0, c1 := R(ctx.Done()), R((<-chan struct{})(stopped)); Select(-77, false, c0, c1) {
+		case 0:
+			once.Do(func() { fired = true })
+			if fired {
+				f()
+			}
+		}
+	})
+	return func() bool {
+		won := false
+		once.Do(func() { won = true; Close(stopped) })
+		return won
+	}
 }
 
 // ---------- virtual time ----------
